@@ -19,29 +19,32 @@
    the *address of the Lambda* (`Self`) bound at that moment.  Lambdas live in a heap; `lambdas` is
    Package.lambdas (name -> registered Lambda, the one patched in place by later defuns), `funcs` is
    Package.funcs restricted to user functions (name -> the Lambda address captured by FuncInfo.Create). *)
-From Coq Require Import List ZArith String Bool Arith.
+From Coq Require Import List ZArith Ascii String Bool Arith.
 Import ListNotations.
 Open Scope list_scope.
 
 Inductive sexp :=
 | SInt (z : Z)
 | SSym (x : string)
-| SList (id : nat) (xs : list sexp).
+| SList (id : nat) (xs : list sexp)
+| SGlob (x : string).   (* a *VarVal: the reference to the package variable x that Lambda.Compile puts in
+                           place of a bare body symbol that is not a parameter; never read from a text *)
 
 Inductive value :=
 | VInt (z : Z) | VNil | VT | VSym (x : string) | VList (vs : list value)
-| VVals (vs : list value).   (* a slip.Values object: what floor, values, ... return *)
+| VVals (vs : list value)
+| VUnbound.                 (* the marker object an unbound *VarVal evaluates to (it is not signalled) *)   (* a slip.Values object: what floor, values, ... return *)
 
 (* error outcomes are explicit: condition classes of slip plus the model's own "not in the fragment" *)
 (* EOther: any other condition or a host fault observed on the implementation; M and S never produce it *)
 Inductive err := EUnbound | EUndefined | ETooMany | EType | EBadForm | EOther.
 Inductive res := Val (v : value) | Err (e : err) | OutOfFuel.
 
-Inductive bi := BPlus | BMinus | BLt | BList | BEmit | BProgn | BIf | BFloor | BValues | BCase.
+Inductive bi := BPlus | BMinus | BLt | BList | BEmit | BProgn | BIf | BFloor | BValues | BCase | BRest.
 Definition bi_eqb (a b : bi) : bool :=
   match a, b with
   | BPlus, BPlus | BMinus, BMinus | BLt, BLt | BList, BList | BEmit, BEmit | BProgn, BProgn | BIf, BIf
-  | BFloor, BFloor | BValues, BValues | BCase, BCase => true
+  | BFloor, BFloor | BValues, BValues | BCase, BCase | BRest, BRest => true
   | _, _ => false
   end.
 Definition builtin_of (f : string) : option bi :=
@@ -54,7 +57,8 @@ Definition builtin_of (f : string) : option bi :=
   if String.eqb f "if" then Some BIf else
   if String.eqb f "floor" then Some BFloor else
   if String.eqb f "values" then Some BValues else
-  if String.eqb f "case" then Some BCase else None.
+  if String.eqb f "case" then Some BCase else
+  if String.eqb f "rest" then Some BRest else None.
 
 Fixpoint slookup {A} (k : string) (l : list (string * A)) : option A :=
   match l with [] => None | (k', v) :: r => if String.eqb k k' then Some v else slookup k r end.
@@ -84,7 +88,7 @@ Definition apply_bi (b : bi) (vs : list value) (o : list value) : res * list val
             | [VInt a; VInt b] => Val (if Z.ltb a b then VT else VNil)
             | [_; _] => Err EType
             | _ => Err EBadForm end, o)
-  | BList => (Val (match vs with [] => VNil | _ => VList vs end), o)
+  | BList => (Val (VList vs), o)      (* (list) is an empty list object, not nil *)
   | BEmit => match vs with [v] => (Val v, o ++ [v]) | _ => (Err EBadForm, o) end
   | BProgn => (Val (last vs VNil), o)
   | BIf => (Err EBadForm, o)   (* `if` never gets evaluated arguments (SkipEval) *)
@@ -95,6 +99,12 @@ Definition apply_bi (b : bi) (vs : list value) (o : list value) : res * list val
                | [_; _] | [_] => Err EType
                | _ => Err EBadForm end, o)
   | BValues => (Val (VVals vs), o)
+  (* pkg/cl/cdr.go: nil and the empty list give nil, a one-element list gives an EMPTY LIST OBJECT *)
+  | BRest => (match vs with
+              | [VNil] | [VList []] => Val VNil
+              | [VList (_ :: r)] => Val (VList r)
+              | [_] => Err EType
+              | _ => Err EBadForm end, o)
   | BCase => (Err EBadForm, o)   (* only the key of `case` is an evaluated argument; see eval_case *)
   end.
 
@@ -174,9 +184,24 @@ Fixpoint bind (ps : list string) (vs : list value) : env :=
 Definition first_val (v : value) : value :=
   match v with VVals [] => VNil | VVals (x :: _) => x | _ => v end.
 (* Symbol.Eval / the reader: nil and t are constants; everything else is looked up in the scope chain *)
+(* Package variables are the outermost frame of the scope chain.  They are kept in the environment under
+   keys no parameter can have ("$" ++ name), so that a local binding of the same name hides the variable
+   from Symbol.Eval but not from a *VarVal reference. *)
+Definition gkey (x : string) : string := String "$"%char x.
 Definition sym_value (en : env) (x : string) : res :=
   if String.eqb x "nil" then Val VNil else if String.eqb x "t" then Val VT else
-  match slookup x en with Some v => Val v | None => Err EUnbound end.
+  match slookup x en with
+  | Some v => Val v
+  | None => match slookup (gkey x) en with
+            | Some VUnbound | None => Err EUnbound     (* no variable, or a variable without a value *)
+            | Some v => Val v
+            end
+  end.
+(* VarVal.Eval: the current value of the package variable; the unbound marker when it has none *)
+Definition glob_value (en : env) (x : string) : res :=
+  match slookup (gkey x) en with Some v => Val v | None => Val VUnbound end.
+(* EvalArg 410-412: an empty list value becomes nil *)
+Definition norm (v : value) : value := match v with VList [] => VNil | _ => v end.
 
 (* pkg/cl/case.go: clauses (k form...) | ((k1 k2 ..) form...) | (t form...) last; integer keys only *)
 Definition key_matches (key : value) (k : sexp) : bool :=
@@ -189,6 +214,7 @@ Fixpoint select_clause (key : value) (clauses : list sexp) : option (list sexp) 
       | SList _ ks => if existsb (key_matches key) ks then Some forms else select_clause key rest
       | SSym x => if String.eqb x "t" then (match rest with [] => Some forms | _ => None end) else None
       | SInt _ => if key_matches key k then Some forms else select_clause key rest
+      | SGlob _ => None
       end
   | _ => None
   end.
@@ -228,7 +254,7 @@ Section WithEval.
     | f :: rest =>
         match premark st f with
         | None => (Err EUndefined, st)
-        | Some st1 => match ev st1 en f with (Val v, st2) => eval_seq st2 en rest v | r => r end
+        | Some st1 => match ev st1 en f with (Val v, st2) => eval_seq st2 en rest (norm v) | r => r end
         end
     end.
   (* `case`: SkipEval {false, true}: the key is an ordinary argument, the clauses are not evaluated *)
@@ -252,12 +278,12 @@ Section WithEval.
       let d1 := deferred st c in
       match ev st en c with
       | (Val v, st1) =>
-          match (if truthy v then Some a else b) with
+          match (if truthy (norm v) then Some a else b) with
           | None => (Val VNil, apply_def st1 d1)
           | Some x =>
               let d2 := deferred st1 x in
               match ev st1 en x with
-              | (Val w, st2) => (Val w, apply_def (apply_def st2 d1) d2)
+              | (Val w, st2) => (Val (norm w), apply_def (apply_def st2 d1) d2)
               | r => r
               end
           end
@@ -290,6 +316,7 @@ Fixpoint evalM (n : nat) (st : state) (en : env) (e : sexp) : res * state :=
       match e with
       | SInt z => (Val (VInt z), st)
       | SSym x => (sym_value en x, st)
+      | SGlob x => (glob_value en x, st)
       | SList id (SSym f :: args) =>
           match wrapper st id f with
           | WUndef => (Err EUndefined, st)
@@ -376,54 +403,97 @@ Fixpoint syms (l : list sexp) : option (list string) :=
   | SSym x :: r => match syms r with Some xs => Some (x :: xs) | None => None end
   | _ => None
   end.
+(* Lambda.Compile, Symbol case: a bare symbol as a body form stays a symbol when it is a parameter or when
+   the package already has a variable of that name (Scope.has falls through to Package.Has; a variable
+   without a value counts); otherwise a variable without a value is CREATED in the package and the body
+   form becomes its *VarVal.  The defun form itself keeps the symbol (a *VarVal is not written back), so
+   the decision is taken again - differently - when the same form is evaluated again. *)
+Definition keep_sym (gv : env) (ps : list string) (x : string) : bool :=
+  existsb (String.eqb x) ps || String.eqb x "nil" || String.eqb x "t" ||
+  match slookup (gkey x) gv with Some _ => true | None => false end.
+Fixpoint globalize_body (gv : env) (ps : list string) (body : list sexp) : list sexp * env :=
+  match body with
+  | [] => ([], gv)
+  | SSym x :: r =>
+      if keep_sym gv ps x then let (r', gv') := globalize_body gv ps r in (SSym x :: r', gv')
+      else let (r', gv') := globalize_body ((gkey x, VUnbound) :: gv) ps r in (SGlob x :: r', gv')
+  | f :: r => let (r', gv') := globalize_body gv ps r in (f :: r', gv')
+  end.
 Definition parse_defun (e : sexp) : option (string * list string * list sexp) :=
   match e with
   | SList _ (SSym d :: SSym name :: SList _ ps :: body) =>
       if String.eqb d "defun" then match syms ps with Some xs => Some (name, xs, body) | None => None end else None
   | _ => None
   end.
+(* (defvar name k) sets the package variable when it has no value; (defparameter name k) always.
+   Only integer literals as initial values are in the fragment. *)
+Definition parse_gdef (e : sexp) : option (bool * string * Z) :=
+  match e with
+  | SList _ [SSym d; SSym name; SInt z] =>
+      if String.eqb d "defvar" then Some (false, name, z)
+      else if String.eqb d "defparameter" then Some (true, name, z) else None
+  | _ => None
+  end.
+Definition gdef (gv : env) (always : bool) (name : string) (z : Z) : env :=
+  if always then (gkey name, VInt z) :: gv
+  else match slookup (gkey name) gv with
+       | Some VUnbound | None => (gkey name, VInt z) :: gv
+       | Some _ => gv
+       end.
 
-Fixpoint run_forms (n : nat) (st : state) (fs : list tform) (lastv : value) : res * state :=
+Fixpoint run_forms (n : nat) (st : state) (gv : env) (fs : list tform) (lastv : value) : res * state * env :=
   match fs with
-  | [] => (Val lastv, st)
-  | TQuote nm :: r => run_forms n st r (VSym nm)
+  | [] => (Val lastv, st, gv)
+  | TQuote nm :: r => run_forms n st gv r (VSym nm)
   | TForm e :: r =>
       match parse_defun e with
-      | Some (nm, ps, body) => run_forms n (defunM st nm ps body) r (VSym nm)
-      | None => match evalM n st [] e with (Val v, st1) => run_forms n st1 r v | x => x end
+      | Some (nm, ps, body) =>
+          let (body', gv') := globalize_body gv ps body in run_forms n (defunM st nm ps body') gv' r (VSym nm)
+      | None =>
+          match parse_gdef e with
+          | Some (always, nm, z) => run_forms n st (gdef gv always nm z) r (VSym nm)
+          | None => match evalM n st gv e with (Val v, st1) => run_forms n st1 gv r v | (x, st1) => (x, st1, gv) end
+          end
       end
   end.
-(* Code.Compile, first loop: definitions are evaluated and replaced by (quote name) *)
-Fixpoint compile_defs (st : state) (fs : list tform) : state * list tform :=
+(* Code.Compile, first loop: definitions (defun, defvar, defparameter) are evaluated and replaced by (quote name) *)
+Fixpoint compile_defs (st : state) (gv : env) (fs : list tform) : state * env * list tform :=
   match fs with
-  | [] => (st, [])
+  | [] => (st, gv, [])
   | TForm e :: r =>
       match parse_defun e with
-      | Some (nm, ps, body) => let (st', r') := compile_defs (defunM st nm ps body) r in (st', TQuote nm :: r')
-      | None => let (st', r') := compile_defs st r in (st', TForm e :: r')
+      | Some (nm, ps, body) =>
+          let (body', gv0) := globalize_body gv ps body in
+          let '(st', gv', r') := compile_defs (defunM st nm ps body') gv0 r in (st', gv', TQuote nm :: r')
+      | None =>
+          match parse_gdef e with
+          | Some (always, nm, z) => let '(st', gv', r') := compile_defs st (gdef gv always nm z) r in (st', gv', TQuote nm :: r')
+          | None => let '(st', gv', r') := compile_defs st gv r in (st', gv', TForm e :: r')
+          end
       end
-  | t :: r => let (st', r') := compile_defs st r in (st', t :: r')
+  | t :: r => let '(st', gv', r') := compile_defs st gv r in (st', gv', t :: r')
   end.
 (* second loop: the remaining lists are compiled *)
 Definition compile_rest (st : state) (fs : list tform) : state :=
   fold_left (fun s t => match t with TForm e => compile_slot s e | TQuote _ => s end) fs st.
 
-Record mstate := mkM { ms : state; codes : list (nat * list tform) }.
-Definition minit : mstate := mkM init [].
+Record mstate := mkM { ms : state; mgv : env; codes : list (nat * list tform) }.
+Definition minit : mstate := mkM init [] [].
 Definition obs := (res * list value)%type.   (* outcome of one ORun: result or error, and what was emitted *)
 Definition stepM (n : nat) (m : mstate) (o : op) : mstate * option obs :=
   match o with
-  | OLoad cid forms => (mkM (ms m) ((cid, map TForm forms) :: codes m), None)
+  | OLoad cid forms => (mkM (ms m) (mgv m) ((cid, map TForm forms) :: codes m), None)
   | OCompile cid =>
       match nlookup cid (codes m) with
       | None => (m, None)
-      | Some fs => let (st1, fs') := compile_defs (ms m) fs in
-                   (mkM (compile_rest st1 fs') ((cid, fs') :: codes m), None)
+      | Some fs => let '(st1, gv1, fs') := compile_defs (ms m) (mgv m) fs in
+                   (mkM (compile_rest st1 fs') gv1 ((cid, fs') :: codes m), None)
       end
   | ORun cid =>
       match nlookup cid (codes m) with
       | None => (m, None)
-      | Some fs => let (r, st1) := run_forms n (set_out (ms m) []) fs VNil in (mkM st1 (codes m), Some (r, out st1))
+      | Some fs => let '(r, st1, gv1) := run_forms n (set_out (ms m) []) (mgv m) fs VNil in
+                   (mkM st1 gv1 (codes m), Some (r, out st1))
       end
   end.
 Fixpoint runM (n : nat) (m : mstate) (ops : list op) : list obs :=
